@@ -388,7 +388,15 @@ def _check_super_init(ctx, init, rule, label, wants):
                 if i < len(bparams):
                     args[bparams[i]] = ev.ev(a)
             for k in c.keywords:
-                args[k.arg] = ev.ev(k.value)
+                if k.arg is not None:
+                    args[k.arg] = ev.ev(k.value)
+                else:
+                    # super().__init__(**kwargs) with a dict built in steps: its entries are the keywords
+                    from ..core.terms import dict_parts, parse_key
+                    dp_ = dict_parts(ev.ev(k.value).key())
+                    if dp_ is not None and not dp_[0]:
+                        for kk_, vv_ in dp_[1].items():
+                            args.setdefault(kk_, parse_key(vv_))
             for name, pred in wants.items():
                 t = args.get(name)
                 ok = t is not None and pred(t)
